@@ -41,4 +41,15 @@ def judge_streaming_bad_modify(req, rr):
     return False, 'no observation (exit %s) %s' % (rr['exit'], rr['tail'][-300:])
 
 
-JUDGES = {'names': judge_names, 'push_attributes': judge_push_attributes, 'streaming_bad_modify': judge_streaming_bad_modify}
+from actor_replay import judge_actor_script
+
+
+def judge_half_created(req, rr):
+    for o in rr['obs']:
+        if o.get('scenario') == 'create_subscription_abandoned':
+            if o['registered'] and not o['attached']:
+                return True, 'after abandoning CreateSubscription at a full topic mailbox the subscription is registered but not attached to its topic (a publish leaves its backlog at %s)' % o['backlog_after_publish']
+            return False, 'all-or-nothing: registered=%s attached=%s' % (o['registered'], o['attached'])
+    return False, 'no observation (exit %s) %s' % (rr['exit'], rr['tail'][-300:])
+
+JUDGES = {'actor_script': judge_actor_script, 'half_created': judge_half_created, 'names': judge_names, 'push_attributes': judge_push_attributes, 'streaming_bad_modify': judge_streaming_bad_modify}
